@@ -63,6 +63,11 @@ func mark6(p dhcpv6.DHCPv6) []byte {
 	if p == nil {
 		return nil
 	}
+	if rm, ok := p.(*dhcpv6.RelayMessage); ok {
+		if inner, err := rm.GetInnerMessage(); err == nil {
+			p = inner
+		}
+	}
 	if o := p.GetOneOption(dhcpv6.OptionCode(synthOpt6)); o != nil {
 		return append([]byte(nil), o.ToBytes()...)
 	}
@@ -168,6 +173,23 @@ func registerSynth(_ []SynthPlugin, rec *synthRecorder) {
 				stop = true
 			case "stop-nil":
 				out, stop = nil, true
+			case "replace-relay":
+				// for a relayed request: return a complete Relay-Reply of the handler's own making (its outer
+				// layer carries a Subscriber-ID the server would never add); otherwise like "replace"
+				if resp != nil {
+					if n, err := dhcpv6.FromBytes(resp.ToBytes()); err == nil {
+						if inner, err := n.GetInnerMessage(); err == nil {
+							add(inner, []byte{byte(id)})
+							out = inner
+							if rf, ok := req.(*dhcpv6.RelayMessage); ok {
+								if rr, err := dhcpv6.NewRelayReplFromRelayForw(rf, inner); err == nil {
+									rr.(*dhcpv6.RelayMessage).AddOption(&dhcpv6.OptionGeneric{OptionCode: 38, OptionData: []byte(fmt.Sprintf("synth-%d", id))})
+									out = rr
+								}
+							}
+						}
+					}
+				}
 			}
 			e.RespOut, e.Stop, e.MarkOut = fmt.Sprintf("%p", out), stop, mark6(out)
 			rec.add(e)
